@@ -123,6 +123,13 @@ pub fn c09_wm(g: &mut Gen) {
                 lines.push(format!("wm A core u64 mapupwith {} {} : {}", i, v, vals_str(&vals)));
                 lines.push(format!("wm A it sel {} {} : n n", i, v));
             }
+            // the two-position variant clamps both positions like the one-position variant: any pair of positions, any value
+            for j in [0u64, n / 2, n, n + 1, 2 * n + 1, (1u64 << 63) + 1, MAXU - 1, MAXU] {
+                for v in [0u64, 1, maxv, maxv / 2, maxv + 1] {
+                    lines.push(format!("wm A core u64 mapdown2 {} {} {} : {}", i, j, v, vals_str(&vals)));
+                    lines.push(format!("wm A core u64 mapdown2 {} {} {} : {}", j, i, v, vals_str(&vals)));
+                }
+            }
         }
         for v in [0u64, 1, maxv, maxv + 1, MAXU] { lines.push(format!("wm A contains {}", v)); lines.push(format!("wm A it value {} : N{} n", v, MAXU)); }
         for k in boundary_values(n) { lines.push(format!("wm A it items : N{} l n b", k)); lines.push(format!("wm A it items : n B{} l n b", k)); }
